@@ -79,7 +79,11 @@ def run_rules(pid, repo, config="lib"):
         if f["crate"] != "feoxdb":
             continue
         ctx = Ctx(Program(f), pid, config)
-        mod.check(ctx)
+        try:
+            mod.check(ctx)
+        except Exception:
+            import traceback
+            ctx.fail("engine", "internal", "-", "rule engine error: " + traceback.format_exc()[-600:])
         findings.extend(ctx.findings)
     return findings
 
